@@ -119,17 +119,25 @@ def gen_scalar(draw):
     if draw(st.booleans()) and float(c).is_integer():
         c = int(c)
     v = draw(gen.grid_away_from_zero(shp, 2, 24)) if form == "rdiv" else draw(gen.grid(shp))
-    return {"xs": [X(shp, v)], "args": {"form": form, "c": c}}
+    args = {"form": form, "c": c}
+    if not form.startswith("r") and draw(st.integers(0, 3)) == 0:
+        # the scalar as a NumPy scalar (np.sqrt(d), np.float64(0.5)): a float subclass, still "a Python scalar operand"
+        args["np_scalar"] = draw(st.sampled_from(["float64", "float64", "float32", "int64"]))
+        if args["np_scalar"] == "int64" and not float(c).is_integer():
+            args["np_scalar"] = "float64"
+    return {"xs": [X(shp, v)], "args": args}
 
 
 def apply_scalar(ts, args):
     x, c, f = ts[0], args["c"], args["form"]
+    if args.get("np_scalar"):
+        c = np.dtype(args["np_scalar"]).type(c)
     return {"add": lambda: x + c, "radd": lambda: c + x, "sub": lambda: x - c, "rsub": lambda: c - x,
             "mul": lambda: x * c, "rmul": lambda: c * x, "div": lambda: x / c, "rdiv": lambda: c / x}[f]()
 
 
 def ref_scalar(xs, args):
-    x, c, f = xs[0], float(args["c"]), args["form"]
+    x, c, f = xs[0], float(np.dtype(args["np_scalar"]).type(args["c"])) if args.get("np_scalar") else float(args["c"]), args["form"]
     return {"add": lambda: x + c, "radd": lambda: c + x, "sub": lambda: x - c, "rsub": lambda: c - x,
             "mul": lambda: x * c, "rmul": lambda: c * x, "div": lambda: x / c, "rdiv": lambda: c / x}[f]()
 
